@@ -6,7 +6,7 @@ import vlib
 CLOSURE = ["Model/Lock.v", "Proofs/LockP.v", "Proofs/LockPrefix.v"]
 OBLIGATIONS = ["repo_facts_wellformed", "repo_well_locked", "repo_wrappers_registered", "repo_no_escape", "repo_race_free",
                "repo_lock_order_acyclic", "repo_fetchers_confined", "repo_no_blocking_send_under_lock",
-               "repo_no_recursive_lock", "repo_declared_guards_inferred"]
+               "repo_no_recursive_lock", "repo_declared_guards_inferred", "repo_notify_after_state"]
 L2_OVERLAY = {"internal/layer2/zz_verif.go": os.path.join(vlib.VERIF, "harness/internal/layer2/zz_verif.go")}
 
 
@@ -71,6 +71,9 @@ def run(ctx):
         if diag.get("D_no_recursive") != "true":
             broken.append("repo_no_recursive_lock: %s acquire a mutex on a call path on which it is already held (sync.Mutex/RWMutex are not reentrant; "
                           "a nested RLock deadlocks once a writer is queued)" % diag.get("D_reacquirers"))
+        if diag.get("D_notify") != "true":
+            broken.append("repo_notify_after_state: %s" % "; ".join("%s invokes %s before the last write of the state its consumer fetches (or skips / makes conditional the final notification)" % p
+                                                                  for p in pairs(diag.get("D_notify_violations", ""))))
         if diag.get("D_declared_inferred") != "true":
             broken.append("repo_declared_guards_inferred: a declared guarded field is no longer written under its mutex anywhere")
         if diag.get("D_confined") != "true" or diag.get("D_wired") != "true":
@@ -92,7 +95,7 @@ def run(ctx):
     # ---------------------------------------------------------------- runtime part: -race harnesses with serial replay
     thorough = ctx.tier == "thorough"
     st = {}
-    rounds = {"controller": [], "speaker": [], "layer2": []}
+    rounds = {"controller": [], "speaker": [], "layer2": [], "notify": []}
     env = {"VERIF_RAW_HANDLERS": ",".join(raw_handlers)} if raw_handlers else {}
 
     def harness(pkg, n, seed, tag):
@@ -143,20 +146,51 @@ def run(ctx):
         elif not okrun and not failed and not any("does not build" in c for c in ctx.corr_broken):
             ctx.corr_broken.append("TestVerifSpamQueue failed: %s" % log[-1500:])
 
+    def notify(pkg, seed, tag, n):
+        """eager status reconcilers: last published status == state left by the handlers"""
+        test = "TestVerifNotifyController$" if pkg == "controller" else "TestVerifNotifySpeaker$"
+        recs, okrun, log = ctx.go_harness(pkg, ["zz_verif_race_test.go"], test, n=n, seed=seed, tag=tag, race=True,
+                                          extra_overlay=L2_OVERLAY if pkg == "speaker" else None, timeout=600 if thorough else 150)
+        failed = False
+        for r in recs:
+            if r.get("t") == "fail":
+                failed = True
+                ctx.oracle_fail(r.get("sig", "?"), r.get("what", ""), r.get("replay"))
+            elif r.get("t") == "stat":
+                st[r["k"]] = st.get(r["k"], 0) + r["v"]
+            elif r.get("t") == "case":
+                rounds["notify"].append(r)
+        if "WARNING: DATA RACE" in log:
+            m = re.search(r"WARNING: DATA RACE.*?={18}", log, re.S)
+            ctx.oracle_fail("c20-data-race-" + pkg, "the race detector reports a data race between a handler and the eager status consumer (%s)" % pkg,
+                            {"race_report": (m.group(0) if m else log[-5000:])[:7000]})
+        elif "test timed out" in log:
+            ctx.oracle_fail("c20-deadlock-" + pkg, "handler and eager status consumer did not terminate", {"log": log[-5000:]})
+        elif not okrun and not failed and not any("does not build" in c for c in ctx.corr_broken):
+            ctx.corr_broken.append("%s failed: %s" % (test, log[-1500:]))
+
     n = 3 if not thorough else 40
     spam_queue(ctx.seed, "spq")
+    notify("controller", ctx.seed, "nc", 3 if not thorough else 12)
+    notify("speaker", ctx.seed, "ns", 3 if not thorough else 12)
     harness("controller", n, ctx.seed, "ctl")
     harness("speaker", n, ctx.seed, "spk")
 
     if not ctx.violations:
         for k in ("controller_events", "controller_fetches_consumed", "controller_final_assigned_services",
                   "speaker_events", "speaker_fetches_consumed", "speaker_final_l2_or_bgp_announcements",
-                  "spamqueue_handler_released_by_loop", "spamqueue_service_events", "spamqueue_status_fetches"):
+                  "spamqueue_handler_released_by_loop", "spamqueue_service_events", "spamqueue_status_fetches",
+                  "notify_controller_events", "notify_controller_assigned_checks", "notify_controller_reassign_same_pool",
+                  "notify_speaker_events", "notify_speaker_l2_announced_checks", "notify_speaker_bgp_peers_checks"):
             if st.get(k, 0) == 0 and not ctx.corr_broken:
                 raise vlib.Broken("race harness degenerate: %s = 0 (%r)" % (k, st))
 
     def search():
         spam_queue(ctx.seed * 1000 + 5, "sq")
+        if ctx.violations:
+            return
+        notify("controller", ctx.seed * 1000 + 9, "snc", 12)
+        notify("speaker", ctx.seed * 1000 + 9, "sns", 12)
         if ctx.violations:
             return
         for k in range(3):
@@ -166,7 +200,7 @@ def run(ctx):
                 return
 
     allrounds = rounds["controller"] + rounds["speaker"]
-    nq = len(rounds["layer2"])
+    nq = len(rounds["layer2"]) + len(rounds["notify"])
     distinct = len({json.dumps(r["in"], sort_keys=True) for r in allrounds
                     if any(("ips=[" in v and "ips=[]" not in v) or (k.startswith(("l2 ", "peers ")) and v)
                            for k, v in r["in"]["state"].items())})
@@ -190,6 +224,6 @@ def run(ctx):
     ctx.finish(len(allrounds) + nq + len(OBLIGATIONS), distinct + nq,
                "race rounds: 240/300 (thorough 1200/1500) generated events per round delivered by 4-8 goroutines through the real k8s.Listener wrappers, 3 reconciler-like goroutines "
                "consuming CountersForPool / GetStatus / PeersForService (+ the spam loop's gratuitous), under go test -race, final state vs serial replay in recorded acquisition order; "
-               "non-trivial = final state holds at least one assignment / announcement; plus the spam-queue schedules (announcer built as New() with a small queue and the REAL spamLoop: "
-               "full queue with a waiting handler vs GetStatus/shouldAnnounce, and a re-processing burst across a 1.1 s loop period under a 3 s no-progress watchdog); distinct by seed+state; plus the 10 vm_compute obligations on the facts regenerated from the Go AST",
+               "non-trivial = final state holds at least one assignment / announcement; plus the eager-status-consumer runs (200/300 events per round delivered one at a time through the wrappers, a consumer that fetches at once on every status event over an unbuffered hand-over, after every handler last published == state) and the spam-queue schedules (announcer built as New() with a small queue and the REAL spamLoop: "
+               "full queue with a waiting handler vs GetStatus/shouldAnnounce, and a re-processing burst across a 1.1 s loop period under a 3 s no-progress watchdog); distinct by seed+state; plus the 11 vm_compute obligations on the facts regenerated from the Go AST",
                [{"seed": r["in"]["seed"], "workers": r["in"]["workers"], "events": r["in"]["events"]} for r in allrounds[:3]], search=search)
